@@ -294,6 +294,24 @@ def ean_jobs(rng, quick):
     add(U("1234567891") + [0xef, 0xbc, 0x91])
     add("123456AB")
     add("5512345B")
+    # truncation aliases: runes whose low byte is an ASCII digit (U+0130.., U+0430.., U+FF30.., U+1D730..), at every position, in strings whose
+    # byte length or rune length is one of 7, 8, 12, 13 (with the check digit an aliasing reader would expect, and with another one)
+    for base in (0x0130, 0x0430, 0xFF30, 0x2030, 0x1D730, 0x00B0):
+        for total in (7, 8, 12, 13):
+            for by_bytes in (True, False):
+                for _ in range(2 if quick else 8):
+                    d = rng.randrange(10)
+                    r = chr(base + d)
+                    rb = len(r.encode("utf-8"))
+                    ndig = (total - rb) if by_bytes else (total - 1)
+                    if ndig < 0:
+                        continue
+                    pos = rng.randrange(ndig + 1)
+                    digs = rnd(ndig)
+                    if total in (8, 13) and pos < ndig and rng.random() < 0.7:
+                        shadow = digs[:pos] + str(d) + digs[pos:]
+                        digs = digs[:-1] + gen.ean_check(shadow[:-1])
+                    add(digs[:pos] + r + digs[pos:])
     for _ in range(100 if quick else 3000):
         n = rng.choice([7, 8, 12, 13])
         s = rnd(n)
